@@ -158,7 +158,13 @@ func H_C13_seq() {
 		for i := 0; i < L; i++ {
 			conn.in <- zzResponse(shapes[i], ids[i], byte(10+i))
 		}
-		conn.rerr <- errors.New("connection closed")
+		if vfParam("eof", 0) == 1 {
+			// the transport reports the end of the connection as io.EOF (a peer that closed): that is
+			// not an end of stream for calls whose trailer never arrived (seeded change C13g)
+			conn.rerr <- io.EOF
+		} else {
+			conn.rerr <- errors.New("connection closed")
+		}
 	}()
 	vfAtQuiescence(func() {
 		for ci, o := range obs {
